@@ -16,6 +16,8 @@ from ..models import dtw_ref
 PROP = "C14"
 TIERS = {"quick": 64000, "thorough": 3200000}
 BATCH = 500
+HISTORY_WALL = 60
+NO_MINIMISE = {"hang"}
 RULE = ("one evaluation = one generated history (2-3 client sessions, 6-40 ops: construct / kbest_matches(k) / kbest_matches_fast / best_match / "
         "align / reset / get_ith_value / late reads of SSMatches and SSMatch views) executed against real SubsequenceSearch objects that share "
         "option dicts, checked op by op against exhaustive search with an independent DTW and against a fresh object. Distinct = distinct "
